@@ -641,4 +641,155 @@ theorem pushDown_heap {cfg : Cfg} (hs : CfgStd cfg) {lt : α → α → Bool} (h
         omega
       · exact hA.1 k hk hkj
 
+theorem heapFrom_almost {lt : α → α → Bool} {h : H α} {i : Nat} (hh : HeapFrom lt h (i + 1)) :
+    Almost lt h i i :=
+  ⟨fun k hk hki => hh k (by omega), fun p hp hpi => by omega⟩
+
+/-- **Floyd heapify** (`NewWithData`, `Reorder`): running `pushDown(i)` for `i = start … 0`
+establishes heap order, provided `start` is at or above the last internal node -/
+theorem heapify_heap {cfg : Cfg} (hs : CfgStd cfg) {lt : α → α → Bool} (ho : OrderOK lt) (h : H α)
+    (start : Nat) (hst : h.len ≤ 2 * start + 3) :
+    HeapFrom lt (downFrom (fun h i => (pushDown cfg lt h.len h i).1) start h) 0 := by
+  have := downFrom_ind' (P := fun i h' => h'.len = h.len ∧ HeapFrom lt h' i)
+    (fun h i => (pushDown cfg lt h.len h i).1) start h
+    ⟨rfl, fun k hk c hc hcl => by omega⟩
+    (fun h' i _ ⟨hl, hh⟩ =>
+      ⟨by rw [pushDown_len hs.left_gt, hl],
+       pushDown_heap hs ho _ h' i i (by omega) (Nat.le_refl _) (heapFrom_almost hh)⟩)
+  exact this.2
+
+/-- the `Set` loop (`move(data[i], i); pushDown(i)` for `i = len-1 … 0`) establishes heap order -/
+theorem setLoop_heap {cfg : Cfg} (hs : CfgStd cfg) {lt : α → α → Bool} (ho : OrderOK lt) (h : H α)
+    (n : Nat) (hn : h.len = n + 1) :
+    HeapFrom lt (downFrom (fun h i => (pushDown cfg lt h.len (h.report i) i).1) n h) 0 := by
+  have := downFrom_ind' (P := fun i h' => h'.len = h.len ∧ HeapFrom lt h' i)
+    (fun h i => (pushDown cfg lt h.len (h.report i) i).1) n h
+    ⟨rfl, fun k hk c hc hcl => by omega⟩
+    (fun h' i _ ⟨hl, hh⟩ =>
+      ⟨by rw [pushDown_len hs.left_gt, report_len, hl],
+       pushDown_heap hs ho _ (h'.report i) i i (by rw [report_len]; omega) (Nat.le_refl _)
+        (heapFrom_almost (h := h'.report i) hh)⟩)
+  exact this.2
+
+/-- **`pop(0)` preserves heap order** (Pop, Remove(0)): only a downward repair is needed at the root -/
+theorem pop0_heap {cfg : Cfg} (hs : CfgStd cfg) {lt : α → α → Bool} (ho : OrderOK lt) (h : H α)
+    (hh : HeapFrom lt h 0) : HeapFrom lt (pop cfg lt h 0).1 0 := by
+  rw [pop_eq]
+  by_cases hn : h.len - 1 = 0
+  · rw [if_pos hn]; intro k _ c _ hcl; simp [H.len] at hcl
+  · rw [if_neg hn]
+    simp only [hs.noSiftUp, Bool.false_and, Bool.false_eq_true, if_false]
+    have h0 : 0 < h.len := by omega
+    have hl : h.len - 1 < h.len := by omega
+    refine pushDown_heap hs ho _ _ 0 0 (by omega) (Nat.le_refl _) ⟨?_, fun p _ hp => by omega⟩
+    intro k _ hk0 c hc hcl
+    rw [popCut_len] at hcl
+    rw [popCut_get h 0 c hcl, popCut_get h 0 k (by omega), get_swap h c h0 hl, get_swap h k h0 hl,
+      if_neg (by omega), if_neg (by omega), if_neg (by omega), if_neg hk0]
+    exact hh k (Nat.zero_le _) c hc (by omega)
+
+/-- **the root of a heap is a minimum** (induction on the index through `(k-1)/2`) -/
+theorem heap_root_min {lt : α → α → Bool} (ho : OrderOK lt) (h : H α) (hh : HeapFrom lt h 0) :
+    ∀ k, k < h.len → lt (h.get k) (h.get 0) = false := by
+  intro k
+  induction k using Nat.strongRecOn with
+  | ind k ih =>
+    intro hk
+    by_cases h0 : k = 0
+    · subst h0; exact ho.irrefl _
+    · have hp : (k - 1) / 2 < k := by omega
+      have h1 := ih _ hp (by omega)
+      have h2 := hh ((k - 1) / 2) (Nat.zero_le _) k (by omega) hk
+      exact ho.trans h1 h2
+
+theorem heap_root_min_mem {lt : α → α → Bool} (ho : OrderOK lt) (h : H α) (hh : HeapFrom lt h 0) :
+    ∀ x ∈ h.data, lt x (h.get 0) = false := by
+  intro x hx
+  obtain ⟨k, hk, rfl⟩ := (mem_iff_get h x).mp hx
+  exact heap_root_min ho h hh k hk
+
+/-- `pop(0)` without sift-up: conservation, for the standard layout (no assumption on `parent`) -/
+theorem pop0_perm {cfg : Cfg} (hs : CfgStd cfg) (lt : α → α → Bool) (h : H α) (h0 : 0 < h.len) :
+    (h.get 0 :: (pop cfg lt h 0).1.data).Perm h.data := by
+  rw [pop_eq]
+  by_cases hn : h.len - 1 = 0
+  · rw [if_pos hn]
+    have h1 : h.data.length = 1 := by simp only [H.len] at h0 hn; omega
+    obtain ⟨a, ha⟩ := List.length_eq_one_iff.mp h1
+    have : h.get 0 = a := by simp [H.get, ha]
+    rw [this, ha]
+  · rw [if_neg hn]
+    simp only [hs.noSiftUp, Bool.false_and, Bool.false_eq_true, if_false]
+    exact ((pushDown_perm hs.left_gt lt _ _ _).cons _).trans (popCut_perm h 0 h0)
+
+/-- the drain loop of `Sort`: popping a heap until it is empty, consing each popped element onto
+`acc`, yields a list in which every element is `≥` (w.r.t. `lt`) all later ones -/
+theorem sortLoop_spec {cfg : Cfg} (hs : CfgStd cfg) {lt : α → α → Bool} (ho : OrderOK lt) :
+    ∀ (fuel : Nat) (h : H α) (acc : List α), HeapFrom lt h 0 → h.len ≤ fuel →
+      acc.Pairwise (fun a b => lt a b = false) →
+      (∀ a ∈ acc, ∀ x ∈ h.data, lt x a = false) →
+      (sortLoop cfg lt fuel h acc).Pairwise (fun a b => lt a b = false) ∧
+      (sortLoop cfg lt fuel h acc).Perm (h.data ++ acc) := by
+  intro fuel
+  induction fuel with
+  | zero =>
+    intro h acc _ hf hp _
+    have : h.data = [] := List.length_eq_zero_iff.mp (by simp only [H.len] at hf; omega)
+    simp only [sortLoop, this, List.nil_append]
+    exact ⟨hp, Perm.refl _⟩
+  | succ f ih =>
+    intro h acc hh hf hp hacc
+    simp only [sortLoop]
+    by_cases h0 : h.len = 0
+    · rw [if_pos h0]
+      have : h.data = [] := List.length_eq_zero_iff.mp h0
+      simp only [this, List.nil_append]
+      exact ⟨hp, Perm.refl _⟩
+    · rw [if_neg h0]
+      have hpos : 0 < h.len := by omega
+      have hperm := pop0_perm hs lt h hpos
+      have hout := pop_out cfg lt h 0
+      have hlen : (pop cfg lt h 0).1.len = h.len - 1 := by
+        have := hperm.length_eq
+        simp only [H.len, List.length_cons] at this ⊢; omega
+      have hsub : ∀ x ∈ (pop cfg lt h 0).1.data, x ∈ h.data :=
+        fun x hx => hperm.subset (List.mem_cons_of_mem _ hx)
+      have := ih (pop cfg lt h 0).1 ((pop cfg lt h 0).2 :: acc) (pop0_heap hs ho h hh) (by omega)
+        (by
+          rw [hout]
+          refine List.pairwise_cons.mpr ⟨fun a ha => hacc a ha _ (get_mem h 0 hpos), hp⟩)
+        (by
+          rw [hout]
+          intro a ha x hx
+          rcases List.mem_cons.mp ha with rfl | ha
+          · exact heap_root_min_mem ho h hh x (hsub x hx)
+          · exact hacc a ha x (hsub x hx))
+      refine ⟨this.1, this.2.trans ?_⟩
+      rw [hout]
+      refine Perm.trans ?_ (hperm.append_right acc)
+      simp only [List.cons_append]
+      exact List.perm_middle
+
+/-- **`heapq.Sort`**: the result is a permutation of the input, in non-decreasing order -/
+theorem sort_spec {cfg : Cfg} (hs : CfgStd cfg) {lt : α → α → Bool} (ho : OrderOK lt) (vs : List α) :
+    (sort cfg lt vs).Pairwise (fun a b => lt b a = false) ∧ (sort cfg lt vs).Perm vs := by
+  simp only [sort]
+  split
+  · rename_i hlt
+    refine ⟨?_, Perm.refl _⟩
+    match vs, hlt with
+    | [], _ => exact List.Pairwise.nil
+    | [a], _ => exact List.pairwise_singleton _ _
+    | _ :: _ :: _, h => exact absurd h (by simp)
+  · have hh : HeapFrom (fun a b => lt b a) (newWithData cfg (fun a b => lt b a) vs) 0 :=
+      heapify_heap hs ho.flip _ _ (hs.start_ge _)
+    have hl : (newWithData cfg (fun a b => lt b a) vs).len = vs.length :=
+      (newWithData_perm hs.left_gt _ vs).length_eq
+    have := sortLoop_spec hs ho.flip vs.length _ [] hh (by omega) List.Pairwise.nil
+      (fun a ha => by simp at ha)
+    refine ⟨this.1, ?_⟩
+    have h2 := this.2
+    rw [List.append_nil] at h2
+    exact h2.trans (newWithData_perm hs.left_gt _ vs)
+
 end MdsVerif.Proofs.Heapq
